@@ -30,5 +30,8 @@ SPEC = {
             "+-1/+2) or the table cut short; I the same tables inside a complete TrueType variable font through "
             "variations::instance (15%, registered and private axis tags); S SegmentMap::normalize on raw 16.16 "
             "values at / next to knots and anywhere (10%); O FvarTable::owned_tuple with right / off-by-one lengths (5%). "
+            "In 1/6 of the F and I cases the user tuple is named instance k of the table itself (records holding "
+            "min / default / max / midpoint of each axis, with or without postScriptNameID, sometimes too small or one "
+            "past the last). "
             "distinct = distinct input lines; histogram key = kind-layout class-avar?-#axes-result kind",
 }
